@@ -42,7 +42,7 @@ LAGS_ISOLATED = {
 }
 KERNELS = {"vsum": "Kern::Sum", "vmin": "Kern::Min", "vmax": "Kern::Max", "vargmin": "Kern::ArgMin",
            "vargmax": "Kern::ArgMax", "vrank": "Kern::Rank(false)", "vrankpct": "Kern::Rank(true)", "minmaxnorm": "Kern::MinMaxNorm"}
-LOC = ["vmin", "vmax", "vargmin", "vargmax", "vrank", "vrankpct"]
+LOC = ["vmin", "vmax", "vargmin", "vargmax", "vrank", "vrankpct", "minmaxnorm"]     # minmaxnorm added after seeded change C06-m4
 
 LAG_QUICK, LAG_THOROUGH = [3], [2, 4, 5]
 PRE_QUICK, PRE_THOROUGH = [3], [2, 4]
@@ -152,6 +152,8 @@ def main():
     for ns, th in ((LOC_QUICK, False), (LOC_THOROUGH, True)):
         for n in ns:
             for k in LOC:
+                if k == "minmaxnorm" and n == 4:
+                    continue            # two runs of the normalisation at N = 4: beyond the per-harness budget (one run: 400 s)
                 out.append(loc_harness(k, n, th or k in LOC_THOROUGH_ONLY))
     with open(OUT, "w") as f:
         f.write("\n".join(out))
